@@ -16,6 +16,8 @@ any flux function; `Driver/C04.lean` and `reflective_no_mass_energy` plug in C05
 * `reflectiveRight`, `ghostFaceFlux`, `doGhostFluxCalculation` — 553-696 with
   `ReflectiveHydroBoundary::get_right_state_flux_variables`
 * `doGradientCalculation`, `doGhostGradientCalculation` — 710-779
+* `Boundary`, `ghostFluxRight`, `ghostGradientRight`, `ghostFaceFluxB`, `doGhostGradientCalculationB` —
+  the reflective, inflow and outflow ghost states of HydroBoundary.hpp
 * `slopeAlpha`, `applySlopeLimiter` — `Hydro::apply_slope_limiter` (782-851)
 * `predictRaw`, `predictPrimitive`  — `Hydro::predict_primitive_variables` (860-933)
 * `updateConserved`        — `HydroDensitySubGrid::update_conserved_variables` (153-201)
@@ -297,6 +299,61 @@ def doGhostGradientCalculation (i : Axis) (L : HV α) (dxinv : α) : HV α :=
   let Wr := reflectiveRightGradient i L.prim
   gradAddLeft i L (dwdx L.prim Wr dxinv) Wr
 
+/-! ### the other box boundaries (HydroBoundary.hpp) -/
+
+/-- the boundary conditions of `HydroBoundaryManager` that are modelled (the Bondi boundary, an
+analytic inflow profile that depends on the position, is not) -/
+inductive Boundary where
+  | reflective
+  | inflow
+  | outflow
+deriving DecidableEq, Repr
+
+/-- `get_right_state_flux_variables` of the three classes: primitives and gradient components along
+`i` of the ghost cell.  `s` is the orientation (+1 upper, -1 lower side).
+* `ReflectiveHydroBoundary` (216-248): `reflectiveRight`;
+* `InflowHydroBoundary` (85-98): a copy of the cell;
+* `OutflowHydroBoundary` (133-152): a copy, but when the gas moves INTO the box
+  (`orientation * v_i < 0`) the normal velocity is reversed and its gradient set to zero. -/
+def ghostFluxRight (b : Boundary) (i : Axis) (s : α) (W g : Q α) : Q α × Q α :=
+  match b with
+  | .reflective => reflectiveRight i W g
+  | .inflow => (W, g)
+  | .outflow =>
+    if s * V3'.get W.v i < 0.0 then
+      (⟨W.d, V3'.set W.v i (-(V3'.get W.v i)), W.e⟩, ⟨g.d, V3'.set g.v i 0.0, g.e⟩)
+    else (W, g)
+
+/-- `get_right_state_gradient_variables` of the three classes (69-82, 112-130, 200-214) -/
+def ghostGradientRight (b : Boundary) (i : Axis) (s : α) (W : Q α) : Q α :=
+  match b with
+  | .reflective => reflectiveRightGradient i W
+  | .inflow => W
+  | .outflow =>
+    if s * V3'.get W.v i < 0.0 then ⟨W.d, V3'.set W.v i (-(V3'.get W.v i)), W.e⟩ else W
+
+/-- `do_ghost_flux_calculation` for any of the three boundaries -/
+def ghostFaceFluxTagB (b : Boundary) (flux : FluxFn α) (tiny g : α) (i : Axis) (L : HV α)
+    (dx A dt : α) : Q α × Nat :=
+  let r := ghostFluxRight b i (orientation dx) L.prim (L.grad.along i)
+  let rc := reconstruct tiny L.prim (L.grad.along i) r.1 r.2 dx
+  let F := rawFlux flux rc (unitNormal i (orientation dx)) A
+  let fac := ghostFluxFac g fluxLimiter F.d F.v F.e dt L
+  (scaleFlux F fac.1, fac.2)
+
+def ghostFaceFluxB (b : Boundary) (flux : FluxFn α) (tiny g : α) (i : Axis) (L : HV α)
+    (dx A dt : α) : Q α :=
+  (ghostFaceFluxTagB b flux tiny g i L dx A dt).1
+
+def doGhostFluxCalculationB (b : Boundary) (flux : FluxFn α) (tiny g : α) (i : Axis) (L : HV α)
+    (dx A dt : α) : HV α :=
+  { L with dcons := L.dcons.sub (ghostFaceFluxB b flux tiny g i L dx A dt) }
+
+/-- `do_ghost_gradient_calculation` for any of the three boundaries -/
+def doGhostGradientCalculationB (b : Boundary) (i : Axis) (L : HV α) (dxinv : α) : HV α :=
+  let Wr := ghostGradientRight b i (orientation dxinv) L.prim
+  gradAddLeft i L (dwdx L.prim Wr dxinv) Wr
+
 /-! ### `Hydro::apply_slope_limiter` (782-851) -/
 
 /-- the factor `alpha` for one variable: `W` the cell value, `g` its gradient, `lo` / `hi` the
@@ -366,6 +423,24 @@ def predictPrimitiveTag (g ovf : α) (W : Q α) (G : Grad α) (a : V3 α) (dt : 
 
 def predictPrimitive (g ovf : α) (W : Q α) (G : Grad α) (a : V3 α) (dt : α) : Q α :=
   (predictPrimitiveTag g ovf W G a dt).1
+
+/-! ### `Hydro::get_soundspeed`, `Hydro::get_timestep` (223-256, 1232-1243; `γ > 1`) -/
+
+/-- `get_soundspeed`: `sqrt(γ P / ρ)`, `DBL_MIN` for an empty cell -/
+def cellSoundSpeed (g tiny ovf : α) (W : Q α) : α :=
+  if decide (0.0 < W.d) && decide (0.0 < W.e) then
+    (if invOverflows ovf W.d then tiny else ArithFns.sqrt (g * W.e * (1.0 / W.d)))
+  else tiny
+
+/-- `get_timestep`: `R / (c_s + |v|)` with `R = cbrt(0.75 V / π)` the radius of the sphere with the
+cell's volume — the only place where the cell geometry enters the time step.  `invPi` is `M_1_PI`,
+`third` is `1/3` (`std::cbrt(x)` is modelled as `pow(x, 1/3)`; compared with tolerance at `Float`).
+The simulation multiplies the minimum over all cells by the CFL factor (default 0.2). -/
+def getTimestep (g tiny ovf invPi third : α) (W : Q α) (V : α) : α :=
+  let cs := cellSoundSpeed g tiny ovf W
+  let v := ArithFns.sqrt W.v.norm2
+  let R := ArithFns.pow (0.75 * V * invPi) third
+  R / (cs + v)
 
 /-! ### per-cell updates -/
 
